@@ -47,8 +47,9 @@ var fpAnchors = []string{
 	"pkg/op/op.go", "pkg/client/client.go", "pkg/client/rp/relying_party.go", "pkg/http/http.go", "pkg/op/device.go",
 	"pkg/client/rs/resource_server.go", "pkg/client/tokenexchange/tokenexchange.go",
 	"pkg/client/rp/jwks.go", "pkg/oidc/keyset.go",
+	"pkg/client/profile/jwt_profile.go", // deep round 4: the JWT profile token source (a client-side instance shared between goroutines)
 }
-var fpDirs = []string{"pkg/op", "pkg/client", "pkg/client/rp", "pkg/client/rs", "pkg/client/tokenexchange", "pkg/http", "pkg/oidc"}
+var fpDirs = []string{"pkg/op", "pkg/client", "pkg/client/rp", "pkg/client/rs", "pkg/client/tokenexchange", "pkg/http", "pkg/oidc", "pkg/client/profile"}
 
 const fpModule = "github.com/zitadel/oidc/v3/"
 
@@ -869,6 +870,7 @@ func (w *fpWalk) exprs(es ...ast.Expr) {
 				}
 			case *ast.SelectorExpr:
 				w.methodValue(x)
+				w.heapMutatorValue(x)
 				if id, ok := x.X.(*ast.Ident); ok && w.recvT != "" {
 					if p, ok := w.env[id.Name]; ok && p.Root.Kind == "recv" && len(p.Path) == 0 {
 						_, mu := w.guard(x)
@@ -1657,6 +1659,7 @@ func footprintFacts(gc *genCtx) string {
 	g.heap.ret = handsOut
 	g.heap.mutators = c11ErrorMutators(gc)
 	g.scan()
+	g.heapInitCalls()
 
 	var b strings.Builder
 	var sites []fpSite
